@@ -795,6 +795,7 @@ func (f *fileStore) save() error {
 }
 
 func (f *fileStore) open() error {
+	verifAccess(f, verifAccReadHeader, 0)
 	if err := binary.Read(f.file, binary.LittleEndian, &f.lastKey); err != nil {
 		return err
 	}
